@@ -120,7 +120,18 @@ func main() {
 	}
 	if *mutantFile != "" {
 		fired := false
+		knownKeys := map[string]bool{}
+		if fs, err := core.LoadFindings(filepath.Join(*verif, "known_findings.json")); err == nil {
+			for _, f := range fs {
+				if f.Status == "known" && f.Property == *prop {
+					knownKeys[f.Rule+" | "+f.Construct] = true
+				}
+			}
+		}
 		for _, o := range r.Obls {
+			if knownKeys[o.Key()] {
+				continue
+			}
 			if o.Status != core.Discharged && strings.HasPrefix(o.Rule, mu.Rule) {
 				fired = true
 				fmt.Printf("MUTANT-FIRED %s %s [%s] %s\n", mu.ID, o.Rule, o.Construct, o.Detail)
@@ -148,6 +159,14 @@ func main() {
 func selfValidate(r *core.Report, repo, verif, goarch string) {
 	files, _ := filepath.Glob(filepath.Join(verif, "mutants", r.Property+"-*.json"))
 	sort.Strings(files)
+	// behaviour-preserving variants that must stay silent
+	negs, _ := filepath.Glob(filepath.Join(verif, "negatives", r.Property+"-*.json"))
+	sort.Strings(negs)
+	isNeg := map[string]bool{}
+	for _, f := range negs {
+		isNeg[f] = true
+	}
+	files = append(files, negs...)
 	self, err := os.Executable()
 	if err != nil {
 		r.Fail("self-validation: %v", err)
@@ -184,14 +203,26 @@ func selfValidate(r *core.Report, repo, verif, goarch string) {
 			if oc == "" {
 				oc = fmt.Sprintf("error(%d)", code)
 			}
+			if isNeg[f] {
+				switch oc {
+				case "silent":
+					oc = "silent-as-required"
+				case "fired":
+					oc = "false-alarm"
+				}
+			}
 			results[i] = res{id, oc, first}
 		}(i, f)
 	}
 	wg.Wait()
-	fired, skipped := 0, 0
+	fired, skipped, quiet := 0, 0, 0
 	var sample []any
 	for _, x := range results {
 		switch x.Outcome {
+		case "silent-as-required":
+			quiet++
+		case "false-alarm":
+			r.Fail("self-validation: behaviour-preserving variant %s was reported (false alarm): %s", x.ID, x.Detail)
 		case "fired":
 			fired++
 		case "skipped", "nocompile":
@@ -204,5 +235,5 @@ func selfValidate(r *core.Report, repo, verif, goarch string) {
 	if len(files) > 0 && skipped*2 > len(files) {
 		r.Fail("self-validation: %d of %d mutants no longer apply to the tree", skipped, len(files))
 	}
-	r.Extra["selftest"] = map[string]any{"mutants": len(files), "fired": fired, "skipped": skipped, "results": sample}
+	r.Extra["selftest"] = map[string]any{"mutants": len(files) - len(negs), "fired": fired, "skipped": skipped, "behaviour_preserving_variants": len(negs), "silent_as_required": quiet, "results": sample}
 }
